@@ -8,7 +8,7 @@ import re
 from . import mir, sym, guards, diag
 
 APPEND = re.compile(r"(string::String::push|string::String::push_str|fmt::Write::write_fmt|Write>?::write_fmt|writer::Writer::add_whitespace|writer::Writer::add_str|writer::apply_position_restrictions|writer::Writer::sort_function)$")
-ORDER = re.compile(r"(sort_by|sort_unstable_by|sort_by_key|sort_unstable_by_key|sort_by_cached_key|HashSet<.*>::insert|HashSet<.*>::contains|hash::set::HashSet::insert|hash::set::HashSet::contains|::cmp|::partial_cmp|::total_cmp|clone::Clone>?::clone|iter::Iterator::filter|iter::Iterator::rev|iter::Iterator::skip|iter::Iterator::take|iter::Iterator::step_by|str::<impl str>::contains|str::<impl str>::starts_with|char::methods::<impl char>::is_whitespace|slice::<impl \[T\]>::swap|slice::<impl \[T\]>::reverse|Vec<.*>::insert|Vec<.*>::remove|Vec<.*>::swap_remove|vec::Vec::insert|vec::Vec::remove|vec::Vec::swap_remove|vec::Vec::push)$")
+ORDER = re.compile(r"(sort_by|sort_unstable_by|sort_by_key|sort_unstable_by_key|sort_by_cached_key|HashSet<.*>::insert|HashSet<.*>::contains|hash::set::HashSet::insert|hash::set::HashSet::contains|::cmp|::partial_cmp|::total_cmp|iter::Iterator::filter|iter::Iterator::rev|iter::Iterator::skip|iter::Iterator::take|iter::Iterator::step_by|str::<impl str>::contains|str::<impl str>::starts_with|char::methods::<impl char>::is_whitespace|slice::<impl \[T\]>::swap|slice::<impl \[T\]>::reverse|Vec<.*>::insert|Vec<.*>::remove|Vec<.*>::swap_remove|vec::Vec::insert|vec::Vec::remove|vec::Vec::swap_remove|vec::Vec::push)$")
 
 
 def _lit(b, S, t):
